@@ -166,6 +166,21 @@ func (g *matchGen) body(names []string, tag string, block bool) *MatchCase {
 		g.stats["empty-block-body"]++
 		return c
 	}
+	if block && g.rng.IntN(4) == 0 {
+		// a block of exactly one expression statement is still a block: the match yields null, not the expression
+		var e Expr = Asg(V("seen"), Arr(append([]Expr{S(tag)}, uses...)...))
+		switch g.rng.IntN(3) {
+		case 0:
+			e = Asg(V("seen"), S(tag))
+		case 1:
+			if len(uses) > 0 {
+				e = uses[0] // a bare name as the only statement
+			}
+		}
+		c.Block = Blk(ES(e))
+		g.stats["single-expression-block-body"]++
+		return c
+	}
 	if block {
 		args := append([]Expr{S(tag)}, uses...)
 		for i := 1; i < len(args); i++ {
